@@ -290,6 +290,7 @@ def finish(ctx: Ctx, spec: dict) -> int:
         "exhaustive": all(s.exhaustive for s in ctx.streams) if ctx.streams else False,
         "known_findings_hit": listed_hits,
         "lean_build_s": lean.wall_s if lean else 0,
+        "code_coverage": getattr(ctx, "code_coverage", {"measured": False}),
     }
     ev = {
         "property_id": ctx.prop,
